@@ -362,11 +362,13 @@ class PrintStatementRule(MultiLanguageLintRule):  # thailint: ignore[srp]
         Returns:
             True if test file
         """
-        path_str = str(file_path)
-        return any(
-            pattern in path_str
-            for pattern in [".test.", ".spec.", "test_", "_test.", "/tests/", "/test/"]
-        )
+        parts = str(file_path).replace("\\", "/").split("/")
+        name = parts[-1]
+        # Markers belong to the file name (x.test.ts, x.spec.ts, test_x.ts, x_test.ts) or name a
+        # directory (tests/, test/): "latest_api/" or "contest_3.js" merely contain the letters
+        in_test_dir = any(part in ("tests", "test") for part in parts[:-1])
+        named_as_test = name.startswith("test_") or any(m in name for m in (".test.", ".spec.", "_test."))
+        return in_test_dir or named_as_test
 
     def _should_ignore_typescript(self, violation: Violation, context: BaseLintContext) -> bool:
         """Check if TypeScript violation should be ignored.
